@@ -12,7 +12,8 @@ DRIVERS = ['drv_range']
 RULE = ('correspondence: random and boundary coordinates (ints, dyadic, decimal, negative, 1e9-scale, tiny) x '
         'all 4x4 placements of two in-space items (same / other / no solar system / no fit); impl ctc^2 and sts are '
         'compared with the exact-rational model and the generated formulas. Non-trivial = both items here and '
-        'coordinates differ; distinct by (placement, coordinates, radii). Oracle: metric laws on impl triples.')
+        'coordinates differ; distinct by (placement, coordinates, radii). Oracle: metric laws on impl triples.'
+        ' Also: integer coordinates beyond 2**53 that lie close together, and items whose orientation was assigned after their coordinate.')
 ASSUMPTIONS = [
     'math.sqrt is trusted (the model compares squared distances; theorems are over the reals)',
     'arguments are in-space items (Ship, Drone, FighterSquad): other item classes carry no coordinate and are outside the quantifier',
